@@ -41,6 +41,13 @@ def ccast(t, v):
 def oracle(toks, line):
     if line == "badop":
         return None
+    if toks[0] == "invr":
+        abi, ty, v = toks[1], toks[2], int(toks[3])
+        if line == "badinput":
+            return None
+        sg, by, isb = TYPES[ty]
+        lo, hi = rng_of(sg, by, isb)
+        return line == (f"ok {v}" if lo <= v <= hi else "abort")     # the guest's value, or abort when the application type cannot hold it
     if toks[0] == "inamed":
         sb, name, v = int(toks[1]), toks[2], int(toks[3])
         lib = LIBOF[sb]
@@ -137,12 +144,25 @@ def run(chk):
             name = rng.choice(["scale", "ident"])
             seq.append(f"inamed {sb} {name} {rng.randrange(-1000, 1000)}" if rng.random() < 0.6 else f"ifnaddr {sb} {name}")
         ops += seq
-    ops = ["ifnaddr 0 scale", "inamed 0 scale 4", "ifnaddr 0 scale", "ifnaddr 1 ident", "inamed 1 ident 1", "inamed 2 ident 1"] + ops
+    # results on the three ABIs (C: guest short/int wider than the application's -> results can be unrepresentable)
+    GUESTW = {"A": {"short": 2, "int": 4, "long": 4, "llong": 8}, "B": {"short": 2, "int": 4, "long": 8, "llong": 8}, "C": {"short": 4, "int": 8, "long": 8, "llong": 8}}
+    KIND = {"short": "short", "ushort": "short", "int": "int", "uint": "int", "long": "long", "ulong": "long", "llong": "llong", "ullong": "llong", "char16": "short", "char32": "int"}
+    rops = []
+    for abi in ("A", "B", "C"):
+        for ty in [t for t in TYPES if t != "wchar"]:
+            sg, by, isb = TYPES[ty]
+            gby = GUESTW[abi][KIND[ty]] if ty in KIND else by
+            glo, ghi = rng_of(sg, gby, isb)
+            alo, ahi = rng_of(sg, by, isb)
+            vals = {0, 1, glo, ghi, alo, ahi, alo - 1, ahi + 1, ahi + 5, (1 << 32) + 5, -(1 << 31) - 1, rng.randint(glo, ghi)}
+            for v in sorted(x for x in vals if glo <= x <= ghi):
+                rops.append(f"invr {abi} {ty} {v}")
+    ops = rops + ["ifnaddr 0 scale", "inamed 0 scale 4", "ifnaddr 0 scale", "ifnaddr 1 ident", "inamed 1 ident 1", "inamed 2 ident 1"] + ops
     # the by-name ops share per-instance caches: keep them in one sequential chunk (the engine is stateless otherwise)
     res = core.differential(chk, ops, binp, oracle, label="invocations", stateless=False)
     kinds = {}
     for o, a in zip(ops, res["impl"]):
-        k = o.split()[0] + ":" + (a.split()[0] if a else "?") + ("" if not a.startswith("abort") else ":" + a.split()[1])
+        k = o.split()[0] + ":" + (a.split()[0] if a else "?") + ("" if not a.startswith("abort") or len(a.split()) < 2 else ":" + a.split()[1])
         kinds[k] = kinds.get(k, 0) + 1
     chk.cov["input_distribution"] = kinds
     chk.cov["distinct_nontrivial"] = len(set(ops))
